@@ -27,6 +27,10 @@ Proof.
   - cbn [repeat app C16Text.lex_aux]. apply IH.
 Qed.
 
+(* what export writes holds no tab / VT / FF: no piece is marked *)
+Lemma marked_blanks_eol (t : token) k (e : eol) (r : list atom) : marked T t (repeat ABlank k ++ eol_atoms T e ++ r) = false.
+Proof. destruct k; [destruct e|]; reflexivity. Qed.
+
 Lemma lex_join (t : token) (l : line) k (e : eol) (r : list atom) :
   lex_aux false 0 (join_toks T (t :: l) ++ repeat ABlank k ++ eol_atoms T e ++ r)
   = map Some (t :: l) ++ None :: lex_aux false 0 r.
@@ -36,13 +40,15 @@ Proof.
     = map Some l ++ None :: lex_aux false 0 r -> 
     lex_aux false 0 (join_toks T (t :: l) ++ repeat ABlank k ++ eol_atoms T e ++ r)
     = map Some (t :: l) ++ None :: lex_aux false 0 r).
-  { intros l0 t0 H. destruct l0 as [|u l0]; cbn [join_toks app C16Text.lex_aux map] in *; now rewrite H. }
+  { intros l0 t0 H. destruct l0 as [|u l0]; cbn [join_toks app C16Text.lex_aux map] in *.
+    - rewrite marked_blanks_eol. cbn [app]. now rewrite H.
+    - cbn [marked]. cbn [app]. now rewrite H. }
   apply G. clear t G. induction l as [|u l IH].
   - cbn [app map]. apply lex_blanks_eol.
   - destruct l as [|v l].
-    + cbn [join_toks app C16Text.lex_aux map pred repeat]. f_equal. apply (lex_blanks_eol k 0).
-    + cbn [join_toks app C16Text.lex_aux map pred repeat]. f_equal.
-      cbn [join_toks app C16Text.lex_aux map pred repeat] in IH. exact IH.
+    + cbn [join_toks app C16Text.lex_aux map pred repeat]. rewrite marked_blanks_eol. cbn [app]. f_equal. apply (lex_blanks_eol k 0).
+    + cbn [join_toks app C16Text.lex_aux map pred repeat marked]. f_equal.
+      cbn [join_toks app C16Text.lex_aux map pred repeat marked] in IH. exact IH.
 Qed.
 
 Lemma lex_render_line (ls : line * style) (r : list atom) :
@@ -61,6 +67,63 @@ Proof.
   cbn [flat_map map]. rewrite lex_render_line, IH, (to_stream_cons T). reflexivity.
 Qed.
 
+(* ---- padding that mixes blanks with tab / VT / FF (strip() drops all of them at both ends of a line) ---- *)
+Lemma lex_ws_fresh w (r : list atom) : lex_aux false 0 (ws_atoms T w ++ r) = lex_aux false 0 r.
+Proof. induction w as [|[|] w IH]; cbn; auto. Qed.
+Lemma lex_ws_eol w p (e : eol) (r : list atom) :
+  lex_aux true p (ws_atoms T w ++ eol_atoms T e ++ r) = None :: lex_aux false 0 r.
+Proof.
+  revert p; induction w as [|[|] w IH]; intros p.
+  - destruct e; reflexivity.
+  - cbn [ws_atoms map app C16Text.lex_aux]. apply IH.
+  - cbn [ws_atoms map app C16Text.lex_aux]. apply IH.
+Qed.
+Lemma has_tok_ws_eol w (e : eol) (r : list atom) : has_tok T (ws_atoms T w ++ eol_atoms T e ++ r) = false.
+Proof. induction w as [|[|] w IH]; [destruct e; reflexivity| |]; cbn; exact IH. Qed.
+Lemma after_ows_ws_eol w (e : eol) (r : list atom) : after_ows T (ws_atoms T w ++ eol_atoms T e ++ r) = false.
+Proof. induction w as [|[|] w IH]; [destruct e; reflexivity|reflexivity|]; cbn; exact IH. Qed.
+Lemma marked_ws_eol (t : token) w (e : eol) (r : list atom) : marked T t (ws_atoms T w ++ eol_atoms T e ++ r) = false.
+Proof.
+  destruct w as [|[|] w]; [destruct e; reflexivity|reflexivity|]. cbn [ws_atoms map app marked].
+  destruct (is_word T t); [apply has_tok_ws_eol|apply after_ows_ws_eol].
+Qed.
+
+Lemma lex_join_ws (t : token) (l : line) w (e : eol) (r : list atom) :
+  lex_aux false 0 (join_toks T (t :: l) ++ ws_atoms T w ++ eol_atoms T e ++ r)
+  = map Some (t :: l) ++ None :: lex_aux false 0 r.
+Proof.
+  assert (G : forall (l : line) t,
+    lex_aux true 0 (match l with [] => [] | _ => ABlank :: join_toks T l end ++ ws_atoms T w ++ eol_atoms T e ++ r)
+    = map Some l ++ None :: lex_aux false 0 r ->
+    lex_aux false 0 (join_toks T (t :: l) ++ ws_atoms T w ++ eol_atoms T e ++ r)
+    = map Some (t :: l) ++ None :: lex_aux false 0 r).
+  { intros l0 t0 H. destruct l0 as [|u l0]; cbn [join_toks app C16Text.lex_aux map] in *.
+    - rewrite marked_ws_eol. cbn [app]. now rewrite H.
+    - cbn [marked]. cbn [app]. now rewrite H. }
+  apply G. clear t G. induction l as [|u l IH].
+  - cbn [app map]. apply lex_ws_eol.
+  - destruct l as [|v l].
+    + cbn [join_toks app C16Text.lex_aux map pred repeat]. rewrite marked_ws_eol. cbn [app]. f_equal. apply (lex_ws_eol w 0).
+    + cbn [join_toks app C16Text.lex_aux map pred repeat marked]. f_equal.
+      cbn [join_toks app C16Text.lex_aux map pred repeat marked] in IH. exact IH.
+Qed.
+
+Lemma lex_render_line_ws (ls : line * wstyle) (r : list atom) :
+  lex_aux false 0 (render_line_ws T ls ++ r) = map Some (fst ls) ++ None :: lex_aux false 0 r.
+Proof.
+  destruct ls as [l [a k e]]. unfold render_line_ws. cbn [fst snd wlead wtrail wbrk].
+  rewrite <- !app_assoc, lex_ws_fresh. destruct l as [|t l].
+  - cbn [join_toks app map]. rewrite lex_ws_fresh. destruct e; reflexivity.
+  - apply lex_join_ws.
+Qed.
+
+(* however each line is padded with blanks, tabs, VTs, FFs before and after its tokens: the token stream is that of the lines *)
+Theorem lex_render_ws (f : list (line * wstyle)) : lex (render_ws T f) = to_stream (map fst f).
+Proof.
+  unfold C16Text.lex, render_ws. induction f as [|ls f IH]; [reflexivity|].
+  cbn [flat_map map]. rewrite lex_render_line_ws, IH, (to_stream_cons T). reflexivity.
+Qed.
+
 (* import_data on the characters = the line-level import on the lines, whatever the padding and the line ends *)
 Theorem import_text_render b (f : list (line * style)) :
   import_text D T d0 parse ofZ b (render T f) = import_lines D T d0 parse ofZ b (map fst f).
@@ -76,6 +139,13 @@ Theorem roundtrip_text (parse_print : forall v : D, parse (print v) = v) b (o : 
   import_text D T d0 parse ofZ b (render T (combine (export_lines D T d0 print b o) sty)) = Some o.
 Proof.
   intros W L H. rewrite import_text_render, map_fst_zip by exact H.
+  now apply (roundtrip_lines D T d0 print parse ofZ parse_print).
+Qed.
+Theorem roundtrip_text_ws (parse_print : forall v : D, parse (print v) = v) b (o : obj D) (sty : list wstyle) :
+  wf_obj D o -> wf_lines D o -> length sty = length (export_lines D T d0 print b o) ->
+  import_text D T d0 parse ofZ b (render_ws T (combine (export_lines D T d0 print b o) sty)) = Some o.
+Proof.
+  intros W L H. unfold import_text. rewrite lex_render_ws, map_fst_combine by auto.
   now apply (roundtrip_lines D T d0 print parse ofZ parse_print).
 Qed.
 Corollary roundtrip_text_plain (parse_print : forall v : D, parse (print v) = v) b (o : obj D) :
